@@ -252,7 +252,7 @@ impl Prop for C13 {
         crate::fuzzdec::c13(bytes)
     }
     const RULE: &'static str = "four generated families: (a) spelling triples built from a target word sequence with word-level corruptions (delete/add/merge/split/replace/swap words, empty prediction, NFKC-space characters, unclean separators), prediction = target / input / further corruption; (b) whitespace triples = three independent space placements of one character sequence (all valid variants), all three modes; (c) arbitrary Unicode triples (totality + range only); (d) label/prediction vectors and string lists for accuracy, binary F1, mean (normalised) edit distance; x beta in {0.5,1,2} x sequence_averaged x use_graphemes. Oracles: range, calibration laws via reference LCS, reference whitespace-operation sets, aggregation laws, defining formulas with the C12 reference distance. Non-trivial: a triple with prediction != input != target in which one text is empty or the word counts differ (a), >= 2 sequences with both an insertion and a deletion (b). Distinct = distinct serialised case.";
-    const ESSENTIAL: &'static [&'static str] = &["spelling", "whitespace", "wild", "simple", "empty_pred", "empty_input", "empty_list", "nfkc_space", "pred_eq_target", "pred_eq_input", "merged_or_split", "break_correct"];
+    const ESSENTIAL: &'static [&'static str] = &["spelling", "whitespace", "wild", "simple", "empty_pred", "empty_input", "empty_list", "nfkc_space", "pred_eq_target", "pred_eq_input", "merged_or_split", "break_correct", "250_or_more_pairs"];
 
     fn budget(tier: Tier) -> Budget {
         match tier {
@@ -272,7 +272,7 @@ impl Prop for C13 {
             4 => (proptest::collection::vec(select(PLAIN_WORDS).prop_map(str::to_string), 1..=6),
                   proptest::collection::vec((any::<u16>(), select(PLAIN_WORDS).prop_map(str::to_string)), 1..=3))
                 .prop_map(|(words, replaced)| Sub::BreakCorrect { words, replaced }),
-            4 => prop_oneof![12 => 0usize..=4, 1 => 5usize..=60].prop_flat_map(|n| (
+            4 => prop_oneof![120 => 0usize..=4, 10 => 5usize..=60, 1 => 250usize..=600].prop_flat_map(|n| (
                     proptest::collection::vec(prop_oneof![20 => gen::text(4), 20 => select(WORDS).prop_map(str::to_string), 1 => sized_string()], n),
                     proptest::collection::vec(prop_oneof![20 => gen::text(4), 20 => select(WORDS).prop_map(str::to_string), 1 => sized_string()], n),
                     proptest::collection::vec(any::<bool>(), n),
@@ -511,6 +511,7 @@ impl Prop for C13 {
                 out.label("simple");
                 out.label_if(a.is_empty(), "empty_list");
                 let n = a.len();
+                out.label_if(n >= 250, "250_or_more_pairs");
                 // accuracy
                 let acc = metrics::accuracy(a, b);
                 let want = a.iter().zip(b).filter(|(x, y)| x == y).count() as f64 / n.max(1) as f64;
